@@ -27,7 +27,7 @@ MonInit(cfg) ==
    expC |-> <<>>, expE |-> <<>>, H |-> {}, stray |-> <<>>,
    rel |-> 0, relwin |-> FALSE,
    lost |-> FALSE, idleOk |-> FALSE, lastfail |-> <<-1, -1>>, lout |-> [k |-> "none", c |-> -1, args |-> <<>>, why |-> ""], owed |-> {}, rt |-> FALSE,
-   bad |-> <<>>, ulog |-> <<>>, uncl |-> 0, txns |-> 0, units |-> 0, evs |-> 0]
+   bad |-> <<>>, ulog |-> <<>>, uncl |-> 0, txns |-> 0, units |-> 0, evs |-> 0, last |-> <<>>]
 
 AddBad(m, p, why) == [m EXCEPT !.bad = IF Len(@) < 12 THEN Append(@, [p |-> p, why |-> why, at |-> m.n, sid |-> m.cfg.sid]) ELSE @,
                                !.lost = TRUE]
